@@ -1,10 +1,13 @@
 """C02 - derived expectations agree with the reference peers on any well-formed test case.
 
 Case trees (see harness/C02/.../zz_verif_c02_test.go and C02_Model.v):
-  test    := (name stype reqheaders (request ...))
+  test    := (name stype reqheaders (request ...)) | (name stype reqheaders (request ...) 1)
+             the second form is a Connect GET case: use_get_http_method, method IdempotentUnary (message kind 0 is then
+             IdempotentUnaryRequest), in a suite of its own that relies_on_connect_get (Connect only, identity only)
   request := (kind full data def?)        kind 0 Unary 1 ClientStream 2 ServerStream 3 BidiStream 4 other message 5 unknown URL
   def     := (headers trailers (data ...) err?)      err := (code msg? ((kind content) ...))
-  c02.expect (tests)                       -> loader outcome + derived expectations
+  c02.expect (tests)                       -> loader outcome + derived expectation of every permutation under the codecs
+                                              proto and json: (suite/name codec expected)
   c02.live   (gc gs) (cfg ...) (tests)     -> per permutation: verdict and projected observed result, real peers in-process
 """
 import base64
@@ -118,7 +121,11 @@ DEF_MODES = ["first", "first", "first", "first", "first+later", "first+later", "
 
 
 def wf_test(rng, name, st=None, nreq=None, nresp=None, err=None, with_def=None, defs=None, overlap=None, code=None, ndet=None,
-            reqhdrs=None):
+            reqhdrs=None, get=False):
+    """get=True: a Connect GET case (unary, IdempotentUnary + use_get_http_method): the expectation of each of its
+    permutations names the permutation's codec in the echoed query parameters"""
+    if get:
+        st = UNARY
     st = st or rng.choice([UNARY, UNARY, CLIENT, CLIENT, SERVER, SERVER, HALF, HALF, FULL, FULL, FULL])
     if st in (UNARY, SERVER):
         nreq = 1
@@ -158,11 +165,42 @@ def wf_test(rng, name, st=None, nreq=None, nresp=None, err=None, with_def=None, 
         # full_duplex is read from the first message only: later messages may say anything
         full = (1 if st == FULL else 0) if (i == 0 or KIND_OF[st] != 3 or rng.random() < 0.7) else rng.randint(0, 1)
         reqs.append([KIND_OF[st], full, data, d])
-    return [name, st, headers(rng) if reqhdrs is None else reqhdrs, reqs]
+    t = [name, st, headers(rng) if reqhdrs is None else reqhdrs, reqs]
+    if get:
+        t.append(1)
+    return t
 
 
 def t_stype(t): return t[1]
 def t_reqs(t): return t[3]
+def t_get(t): return len(t) > 4 and bool(t[4])
+
+
+def get_tests(rng):
+    """Connect GET shapes that every run contains (reference pair; each runs under {HTTP/1.1, h2c} x {proto, json}, so one
+    definition always has permutations under BOTH codecs in one library): data / empty data / no definition / errors
+    with 0-3 details / names shared by headers and trailers / -bin names everywhere / no request headers"""
+    T = wf_test
+    out = [
+        T(rng, "get-data", get=True, err=False, defs="first"),
+        T(rng, "get-data-2", get=True, err=False, defs="first"),
+        T(rng, "get-no-def", get=True, defs="none"),
+        T(rng, "get-no-headers", get=True, err=False, defs="first", reqhdrs=[]),
+        T(rng, "get-error", get=True, err=True, defs="first"),
+        T(rng, "get-error-overlap", get=True, err=True, defs="first", overlap="both"),
+        T(rng, "get-data-overlap", get=True, err=False, defs="first", overlap="case"),
+    ]
+    for nd in range(4):
+        out.append(T(rng, "get-error-%d-details" % nd, get=True, err=True, defs="first", code=rng.randint(1, 16), ndet=nd))
+    t = T(rng, "get-bin-everywhere", get=True, err=False, defs="first", reqhdrs=headers(rng, maxn=1, must=["x-req-bin", "X-Mixed-Bin"]))
+    d = t[3][0][3][0]
+    d[0] = headers(rng, maxn=1, must=["x-data-bin", "X-Rsp-BIN"])
+    d[1] = headers(rng, maxn=1, must=[rng.choice(["x-data-bin", "X-Data-Bin"]), "x-trl-bin"])
+    out.append(t)
+    e = T(rng, "get-empty-data", get=True, err=False, defs="first")
+    e[3][0][3][0][2] = [b""]
+    out.append(e)
+    return out
 
 
 def first_def(t):
@@ -170,6 +208,23 @@ def first_def(t):
     if rs and rs[0][3]:
         return rs[0][3][0]
     return None
+
+
+def well_shaped(t):
+    """a shrink candidate that still has the shape of a test tree (the shrinker drops and empties list elements freely)"""
+    try:
+        if not (isinstance(t, list) and len(t) in (4, 5) and isinstance(t[1], int) and isinstance(t[2], list) and isinstance(t[3], list)):
+            return False
+        if len(t) == 5 and t[4] not in (0, 1):
+            return False
+        for r in t[3]:
+            if not (isinstance(r, list) and len(r) == 4 and isinstance(r[0], int) and isinstance(r[1], int) and isinstance(r[3], list)):
+                return False
+            if r[3] and not (isinstance(r[3][0], list) and len(r[3][0]) == 4 and all(isinstance(x, list) for x in r[3][0])):
+                return False
+        return True
+    except Exception:
+        return False
 
 
 def is_fd_immediate_error_multi(t):
@@ -222,6 +277,8 @@ def cfg_matrix(tier, gc, gs):
 def malformed_test(rng, name):
     """a test case that may be outside the well-formed fragment: the loader must reject or accept it, never crash"""
     t = wf_test(rng, name)
+    if rng.random() < 0.12:
+        t.append(1)                                                 # use_get_http_method on any stream type
     r = rng.random()
     if r < 0.15:
         t[1] = rng.choice([0, 6, 7, 1, 2, 3, 4, 5])                 # other stream type, same messages
@@ -311,17 +368,21 @@ class C02(Prop):
     go_timeout = 1500
     rule = ("c02.expect: every (stream type x 0-3 requests x 0-3 responses x error x definition present) shape plus seeded random "
             "suites of 1-4 cases, a third of them outside the well-formed fragment (wrong message type, stream type 0/6/7, no name, "
-            "duplicate names, no requests, surplus requests) through the real parseTestSuites + newTestCaseLibrary; "
+            "duplicate names, no requests, surplus requests, use_get_http_method on any stream type) through the real parseTestSuites + "
+            "newTestCaseLibrary under TWO config cases (codec proto and json), one expectation per permutation, Connect GET cases "
+            "(IdempotentUnary + use_get_http_method, suite relies_on_connect_get) among them; "
             "c02.live: seeded random well-formed cases (all five stream types, 0-6 requests, 0-5 responses incl. more responses than "
             "requests, empty and 1-300 byte payloads, errors of every code with/without message and 0-3 details after 0..n responses, "
             "headers/trailers with 1-3 values, mixed case, -bin, names shared by headers and trailers in the same or another letter "
             "case, the response definition on the first / a later / several / no request, any full_duplex flag on later requests) "
             "plus three targeted batches per peer pair on every run (request/response counts incl. zero and 20 requests; overlapping "
             "names for unary and client-stream with data and with error; -bin names as request header, response header and trailer at "
-            "once; definitions on later requests only; every error code 1-16 with 0-3 details) run by the real runTestCasesForServer "
+            "once; definitions on later requests only; every error code 1-16 with 0-3 details), two Connect GET cases in every batch of "
+            "the reference pair and a batch of 13 GET shapes (each under {HTTP/1.1,h2c} x {proto,json} in ONE library), run by the real runTestCasesForServer "
             "against the in-process reference server / grpc-go server with the reference / grpc-go client under {HTTP/1.1,h2c} x 3 "
             "protocols x {proto,json} x {identity,gzip} (thorough: six compressions, TLS); compared: verdict (pass) and projected "
-            "observed result (metadata projected on every name ANY request's definition declares). "
+            "observed result (metadata projected on every name ANY request's definition declares; echoed query parameters projected on "
+            "encoding / connect / compression). "
             "non-trivial = at least one permutation ran / at least one expectation was derived")
     trusted_base = ("Coq 8.16.1 kernel", "extraction (ExtrOcamlBasic only) + ocaml/driver.ml", "vlib generators/comparator, Go overlay harness files",
                     "C03's model of results.go assert (tied to the code by C03's own check)",
@@ -331,11 +392,14 @@ class C02(Prop):
                    "followed by the trailer values; messages, their order, error code/message/details arrive unchanged; the handler sees the client's "
                    "headers under the same rule - validated by sampling on every run, not proved",
                    "header names are HTTP tokens outside the protocol-reserved set, distinct up to case within ONE list (a repeated key is one Header entry with several values, as service.proto says; headers and trailers may share names); values visible ASCII without comma or edge whitespace",
-                   "request messages are identified by (message type, request data)")
+                   "request messages are identified by (message type, request data); UnaryRequest and IdempotentUnaryRequest are both message kind 0 (the unary request of the method called)",
+                   "a call issued as Connect GET under a codec reaches the handler with the query parameters encoding=<codec name> and connect=v1 among others (transport_ok.tk_query; connect-go's buildGetURL), sampled on every run; "
+                   "GET cases run under the Connect protocol and identity compression only (the reference client never compresses a GET request of this size: the maintainers' restriction in connect_with_get.yaml), hence with the reference pair only")
     level = "proof"   # the transport hypotheses are sampled, not proved: said in level_text and level_note
     level_text = ("Machine-checked proof (Coq) that for every well-formed test case of the deterministic fragment - any stream type, any number of "
-                  "requests/responses/headers/details - the modelled expectation generator, reference/gRPC server handlers and reference/gRPC client "
-                  "reports make C03's model of the runner's assert report nothing, for all four peer pairs, under explicit transport hypotheses; that "
+                  "requests/responses/headers/details, Connect GET cases included - and every permutation of it (codec, compression) the modelled expectation "
+                  "generator (per permutation: a GET case's expectation names the codec), reference/gRPC server handlers and reference/gRPC client "
+                  "reports make C03's model of the runner's assert report nothing, for all peer pairs that run the case, under explicit transport hypotheses; that "
                   "the expectation generator and the suite loader never crash on any shape; sampled differential validation of the model (including "
                   "the transport hypotheses) against the real loader and the real in-process peers on every check.")
     level_note = ("Partial: the RPC libraries and HTTP are hypotheses (C02_Spec.transport_ok), validated only by sampling. expectation_met excludes the "
@@ -393,6 +457,11 @@ class C02(Prop):
                 base = t[3][0]
                 t[3] = [list(base) for _ in range(nreq)]
             yield ["c02.expect", [t]]
+        # 1b. Connect GET shapes: the expectation of every permutation (the loader runs under both codecs)
+        for err, wd, nh in itertools.product([False, True], [False, True], [0, 1, 2]):
+            k += 1
+            t = wf_test(rng, "s%d" % k, get=True, err=err, with_def=wd, reqhdrs=headers(rng, maxn=nh) if nh else [])
+            yield ["c02.expect", [t, wf_test(rng, "s%d" % k, st=UNARY, err=err, with_def=wd)]]   # same name, other suite
         # 2. random suites, a third with malformed members
         for i in range(2000 if quick else 30000):
             n = rng.randint(1, 4)
@@ -400,9 +469,9 @@ class C02(Prop):
             tests = []
             for j in range(n):
                 nm = "e%d" % j
-                tests.append(malformed_test(rng, nm) if bad and rng.random() < 0.6 else wf_test(rng, nm))
+                tests.append(malformed_test(rng, nm) if bad and rng.random() < 0.6 else wf_test(rng, nm, get=rng.random() < 0.12))
             if bad and n > 1 and rng.random() < 0.2:
-                tests[-1][0] = tests[0][0]          # duplicate name
+                tests[-1][0] = tests[0][0]          # duplicate name (an error within one suite, fine across the two)
             yield ["c02.expect", tests]
 
     # live runs are generated and evaluated in extra(): a disagreement there is localised to one
@@ -426,6 +495,9 @@ class C02(Prop):
                     if gs and is_zero_request_stream(t):
                         continue            # known hang against the grpc-go server: isolated batch below, thorough tier only
                     tests.append(t)
+                if not gc and not gs:
+                    # two Connect GET cases per batch of the reference pair: each has permutations under both codecs
+                    tests += [wf_test(rng, "g%d" % i, get=True) for i in range(2)]
                 for cf, ts in split_for_grpc_server(gs, cfgs, tests):
                     yield ["c02.live", [gc, gs], cf, ts]
         # 4. targeted shapes, every pair, every run
@@ -434,6 +506,8 @@ class C02(Prop):
             for tests in targeted_tests(rng, gs):
                 for cf, ts in split_for_grpc_server(gs, cfgs, tests):
                     yield ["c02.live", [gc, gs], cf, ts]
+        # 4b. Connect GET shapes (reference pair only: Connect protocol), every run; only the config cases they run under
+        yield ["c02.live", [0, 0], [c for c in cfg_matrix(tier, 0, 0) if c[1] == 1 and c[3] == 1], get_tests(rng)]
         # 5. known-finding classes, each in a batch of its own
         if not fd_multi:
             fd_multi = [wf_test(rng, "k0", st=FULL, nreq=2, nresp=0, err=True, defs="first")]
@@ -488,6 +562,7 @@ class C02(Prop):
     def localise(self, ctx, case, gr, mr):
         """one differing (test, config case), then a few rounds of shrinking that single test"""
         kind, pair, cfgs, tests = case
+        best = (case, gr, mr)
         try:
             G, M = parse_sx(gr), parse_sx(mr)
             bad = None
@@ -507,12 +582,19 @@ class C02(Prop):
                 return case, gr, mr
             (g1,), (m1,) = ctx.eval_both([cand], "live-min")
             if g1 == m1:
-                return case, gr, mr
+                # not reproduced under the one config case: something that needs several permutations of the test in
+                # ONE library (e.g. an expectation shared among the permutations of a definition): keep all config cases
+                cand = [kind, pair, cfgs, ts[:1]]
+                (g1,), (m1,) = ctx.eval_both([cand], "live-min")
+                if g1 == m1:
+                    return case, gr, mr
+                return cand, g1, m1
             cur, gc_, mc_ = cand, g1, m1
+            best = (cur, gc_, mc_)
             for _ in range(4):
                 cands = []
                 for t in _shrink_candidates(cur[3][0]):
-                    if isinstance(t, list) and len(t) == 4 and isinstance(t[3], list):
+                    if well_shaped(t):
                         if pair[1] and (is_zero_request_stream(t) or (is_half_multi(t) and cur[2][0][0] == 1)):
                             continue        # would run into a known timing class of the grpc-go server (20 s each)
                         if is_fd_immediate_error_multi(t):
@@ -533,9 +615,12 @@ class C02(Prop):
                 if hit is None:
                     break
                 cur, gc_, mc_ = hit
+                best = hit
             return cur, gc_, mc_
-        except Exception:
-            return case, gr, mr
+        except Exception as exc:      # localisation is a convenience: never let it mask the disagreement itself
+            import sys
+            print("C02: localise stopped early (%s: %s)" % (type(exc).__name__, exc), file=sys.stderr)
+            return best
 
 
 PROP = C02()
